@@ -29,7 +29,7 @@ CHECKS = {
                 ref='5 C05', note=CORE_NOTE),
     'C06': dict(engine='ProcessCore', technique='TLA+ ProcessCore/ProcessProps, TLC exhaustive (NoLostWakeup at quiescence, ResumeValue) + replay',
                 text='Every order of resume(v)/resume(v2)/resume() against pause/play/kill for waiting programs.',
-                ref='5 C06', note=CORE_NOTE + ' The awaitable (WorkChain) half of C06 is decided by module Awaitables once built.'),
+                ref='5 C06', note=CORE_NOTE + ' Awaited futures and children: the awaitables extension of ProcessCore (C06_NoLostCompletion).'),
     'C13': dict(engine='ProcessCore', technique='TLA+ ProcessCore/ProcessProps, TLC exhaustive (C13_Continuation, C13_Outcome, ResumeValue) + replay with recorded (args, kwargs)',
                 text='Every command (Continue with args/kwargs, Wait+resume value, Stop, UnsuccessfulResult, Kill, raise) in chains of <=3 steps; the continuation records what it received.',
                 ref='5 C13', note=CORE_NOTE),
@@ -42,6 +42,9 @@ CHECKS = {
     'C09': dict(engine='Outline', technique='TLA+ Outline: stepper tree small-step (mirrors workchains.py) refines BigStep structured semantics, TLC on every outline x oracle; each instance run on a generated real WorkChain',
                 text='Every outline with <=N nodes nested <=D x every predicate oracle; ordered call trace per RUNNING state and result() equal the TLA+ values.',
                 ref='5 C09', note='Trusted base: TLC, harness/outline_real.py (class generator, unit-by-unit runner).'),
+    'C10': dict(engine='ProcessCore', technique='TLA+ ProcessCore awaitables extension (workchains.Waiting enter/exit/_awaitable_done), TLC exhaustive (C10_Barrier, C10_FailureStops) + replay on real WorkChains with futures and launched children',
+                text='<=3 awaited items x registration way x outcome {ok, fails, killed} x every completion order and grouping into loop iterations x pause/play/kill placements; the step after the barrier records which futures are done and the ctx.',
+                ref='5 C10', note=CORE_NOTE),
     'C20': dict(engine='Adapters', technique='TLA+ Adapters (futures, ready queue, synchronous kiwipy callbacks), TLC exhaustive (Faithful, ExactlyOnce, ActionOnce, Stable) + replay of every behaviour on the real adapters + validation of message_receive traces',
                 text='Chains of futures resolving to futures to depth 2 (4 thorough), every outcome at every level in every completion order, for create_task, plum_to_kiwi_future, unwrap_kiwi_future, their composition, convert_to_comm, _schedule_rpc replies and CancellableAction histories.',
                 ref='5 C20', note='Trusted base: TLC, harness/vloop.py, harness/adapters_real.py. Real cross-thread delivery is not explored.'),
